@@ -81,7 +81,8 @@ type Run struct {
 type Observation struct {
 	ExitClass string            `json:"exit_class"` // ok | fail | panic | hang | crash(sim)
 	Exit      int               `json:"exit"`
-	Written   []string          `json:"written"` // files this process wrote completely (sim: sidecar; plain: all three iff exit 0)
+	Written   []string          `json:"written"` // generated files this process created or modified (observed on the directory)
+	Intended  map[string]string `json:"-"`       // sim: digest of the bytes passed to os.WriteFile, per file, when that seam was used
 	Files     map[string]string `json:"-"`       // bytes of the written files
 	FileSha   map[string]string `json:"file_sha"`
 	Report    string            `json:"-"`
@@ -123,18 +124,23 @@ func classify(r *GenResult) string {
 func Observe(r *GenResult, sim bool) *Observation {
 	o := &Observation{ExitClass: classify(r), Exit: r.Exit, Files: map[string]string{}, FileSha: map[string]string{},
 		Report: string(r.Stdout), ReportSha: shaS(r.Stdout), Stderr: string(r.Stderr)}
+	// Files written by this process, as observed on the directory.
+	for _, f := range GenFiles {
+		if r.Touched[f] {
+			b := r.Files[f]
+			o.Written = append(o.Written, f)
+			o.Files[f] = string(b)
+			o.FileSha[f] = shaS(b)
+		}
+	}
 	if sim {
+		// Where the write went through the os.WriteFile seam the intended
+		// bytes are known: what is on disk must be exactly that.
+		o.Intended = map[string]string{}
 		for f, sum := range r.Written() {
-			if b, ok := r.Files[f]; ok && shaSimrt(b) == sum {
-				o.Written = append(o.Written, f)
-				o.Files[f] = string(b)
-				o.FileSha[f] = shaS(b)
-			} else {
-				// the process wrote it but the directory holds something else:
-				// record as written with what is on disk so the mismatch shows
-				o.Written = append(o.Written, f)
-				o.Files[f] = string(b)
-				o.FileSha[f] = shaS(b) + "(disk differs from write)"
+			o.Intended[f] = sum
+			if b, ok := r.Files[f]; !ok || shaSimrt(b) != sum {
+				o.FileSha[f] = shaS(r.Files[f]) + "(disk differs from write)"
 			}
 		}
 		o.Calls = r.Calls()
@@ -144,14 +150,6 @@ func Observe(r *GenResult, sim bool) *Observation {
 		for _, e := range r.Side {
 			if e.Fault != nil {
 				o.FiredSim = true
-			}
-		}
-	} else if r.Exit == 0 {
-		for _, f := range GenFiles {
-			if b, ok := r.Files[f]; ok {
-				o.Written = append(o.Written, f)
-				o.Files[f] = string(b)
-				o.FileSha[f] = shaS(b)
 			}
 		}
 	}
@@ -198,8 +196,12 @@ func SetSources(dir string, v *Variant) error {
 			os.RemoveAll(filepath.Join(dir, n))
 		}
 	}
-	for n, c := range v.Files {
-		if err := os.WriteFile(filepath.Join(dir, n), []byte(c), 0o644); err != nil {
+	// Files are (re)created in the simulator's order: remove first so that the
+	// directory listing order is decided here and not by earlier operations.
+	for _, n := range CreationOrder(v.Files, dir) {
+		p := filepath.Join(dir, n)
+		os.Remove(p)
+		if err := os.WriteFile(p, []byte(v.Files[n]), 0o644); err != nil {
 			return err
 		}
 	}
